@@ -262,6 +262,11 @@ func c13Program(seed uint64, tier string) (files []srcFile, prog *gen.Program, h
 		files = append(files, srcFile{"more.globals", "// overlapping definitions\nGLOBAL_INT = 5\napp.NAME = 'x'\nOTHER = 1\nFLAG = false\n"})
 		hasErr = true
 	}
+	if !hasErr && r.P(1, 8) {
+		// one template defined in two files: one error, whose text does not depend on which file came first
+		files = append(files, srcFile{"dup.soy", "{namespace ex}\n/** */\n{template .c3}again{/template}\n"})
+		hasErr = true
+	}
 	if r.P(1, 4) && files[len(files)-1].Name != "tiny.soy" {
 		// every file under one name (AddTemplateString does not ask for distinct names, or for a name at all)
 		name := []string{"", "views.soy"}[r.Intn(2)]
